@@ -354,6 +354,31 @@ for name, body, src in fns:
     if tmp:
         uses_c = uses_d = False     # works on a temporary instance that the bailout destroys
     throws = len(re.findall(r"\bTHROW\w*\s*\(", body))
+    # `return` statements that leave the function AFTER it started to drive a libjpeg object and BEFORE the bailout label
+    # (they bypass the bailout block): tail calls of another API function, the tables-only return of tj3DecompressHeader
+    # and "parameter setter failed" returns are known shapes, anything else is reported verbatim
+    erets = []
+    adv = [m_.start() for m_ in list(C_ADV.finditer(body)) + list(D_ADV.finditer(body))]
+    if adv and not tmp:
+        lo = min(adv)
+        hi = bm.start() if bm else len(body)
+        for rm_ in re.finditer(r"\breturn\b([^;]*);", body[lo:hi]):
+            pos = lo + rm_.start()
+            ctx_start = max(body.rfind(";", 0, pos), body.rfind("{", 0, pos), body.rfind("}", 0, pos)) + 1
+            guard = norm(body[ctx_start:pos])
+            expr = norm(rm_.group(1))
+            # the enclosing block's condition when the return is the last statement of a braced block
+            blk = body.rfind("{", 0, pos)
+            pre = norm(body[max(0, blk - 200):blk]) if blk >= 0 else ""
+            tc = re.match(r"(tj\w+)\s*\(", expr)
+            if tc and tc.group(1) in names:
+                erets.append('ERTailCall "%s"' % tc.group(1))
+            elif "JPEG_HEADER_TABLES_ONLY" in guard and expr == "0":
+                erets.append("ERTablesOnly")
+            elif re.search(r"if \(tj3Set(ScalingFactor|CroppingRegion)\s*\([^;]*== -1\)$", guard):
+                erets.append("ERSetterFailed")
+            else:
+                erets.append('EROther "%s"' % (guard + " return " + expr + " [in: " + pre[-60:] + "]").replace('"', "'")[:150])
     calls = []
     for cm_ in re.finditer(r"\b(tj3?[A-Z]\w*|TJBUFSIZE\w*|GET_NAME\s*\(\s*(tj3\w+)\s*,\s*BITS_IN_JSAMPLE\s*\))\s*\(", body):
         cn = cm_.group(2) + str(CUR_BITS.get(name, "")) if cm_.group(2) else cm_.group(1)
@@ -365,7 +390,7 @@ for name, body, src in fns:
                         if m_.group(1) not in ("jerr.warning", "isInstanceError")))
     if re.search(r"\bprocessFlags\s*\(", body):
         writes.append("processFlags")
-    api.append((name, src, uses_c, uses_d, tmp, handlers, bail, throws, calls, libjpeg, writes))
+    api.append((name, src, uses_c, uses_d, tmp, handlers, bail, throws, calls, libjpeg, writes, erets))
 
 # --------------------------------------------------------------------------- tj3Set table
 hdr = strip_comments(rd("src/turbojpeg.h"))
@@ -801,23 +826,25 @@ Inductive hstmt :=
   | HFree (c : hcond) (what : string) | HDestroyTmp (c : hcond) | HFclose (c : hcond) | HWarnRet
   | HRestoreMarkerMethods (c : hcond) | HRestoreStartInputPass (c : hcond)
   | HOther (c : hcond) (text : string).
+Inductive eret := ERTailCall (callee : string) | ERTablesOnly | ERSetterFailed | EROther (text : string).
 Record apifn := { fn_name : string; fn_file : string; fn_uses_c : bool; fn_uses_d : bool; fn_tmp_instance : bool;
                   fn_handlers : list (list hstmt); fn_bailout : option (list hstmt); fn_throws : Z;
                   fn_calls : list string;      (* other exported functions it calls *)
                   fn_libjpeg : bool;           (* calls libjpeg / installs a setjmp handler itself *)
-                  fn_writes : list string      (* tjinstance members it assigns itself (error bookkeeping aside) *) }.
+                  fn_writes : list string;     (* tjinstance members it assigns itself (error bookkeeping aside) *)
+                  fn_early_returns : list eret (* returns after the first state-advancing libjpeg call that bypass the bailout block *) }.
 Inductive pneed := NeedNone | NeedC | NeedD.
 Record tjparam := { p_name : string; p_id : Z; p_field : string; p_lo : Z; p_hi : Z; p_bool : bool; p_need : pneed;
                     p_readonly : bool; p_clears : string }.
 """)
 print("Definition api_functions : list apifn :=\n  [")
 rows = []
-for name, src, uc, ud, tmp, handlers, bail, throws, calls, libjpeg, writes in api:
+for name, src, uc, ud, tmp, handlers, bail, throws, calls, libjpeg, writes, erets in api:
     hs = coq_list([coq_list(h) for h in handlers])
     bl = "None" if bail is None else "Some " + coq_list(bail)
-    rows.append('   {| fn_name := %s; fn_file := %s; fn_uses_c := %s; fn_uses_d := %s; fn_tmp_instance := %s;\n      fn_handlers := %s;\n      fn_bailout := %s; fn_throws := %d;\n      fn_calls := %s; fn_libjpeg := %s; fn_writes := %s |}'
+    rows.append('   {| fn_name := %s; fn_file := %s; fn_uses_c := %s; fn_uses_d := %s; fn_tmp_instance := %s;\n      fn_handlers := %s;\n      fn_bailout := %s; fn_throws := %d;\n      fn_calls := %s; fn_libjpeg := %s; fn_writes := %s;\n      fn_early_returns := %s |}'
                 % (qs(name), qs(src), str(uc).lower(), str(ud).lower(), str(tmp).lower(), hs, bl, throws,
-                   coq_list([qs(c) for c in calls]), str(libjpeg).lower(), coq_list([qs(w) for w in writes])))
+                   coq_list([qs(c) for c in calls]), str(libjpeg).lower(), coq_list([qs(w) for w in writes]), coq_list(erets)))
 print(";\n".join(rows))
 print("  ].\n")
 exported = []
